@@ -36,11 +36,13 @@ import (
 // goroutine gets to run and belongs to the controlled tier (fake clock).
 
 type c19FreeStats struct {
-	Slices     int      `json:"slices"`
-	Adds       int64    `json:"samples_added"`
-	Snapshots  int64    `json:"snapshots_checked"`
-	Required   int64    `json:"presence_checks"`
-	AtTick     int64    `json:"snapshots_with_expired_and_live_samples_around"`
+	Slices            int   `json:"slices"`
+	Adds              int64 `json:"samples_added"`
+	Snapshots         int64 `json:"snapshots_checked"`
+	Required          int64 `json:"presence_checks"`
+	AtTick            int64 `json:"snapshots_with_expired_and_live_samples_around"`
+	FirstSampleTrials int64 `json:"trials_of_concurrent_first_samples_of_a_key"`
+
 	Violations []string `json:"violations"`
 	WallS      float64  `json:"wall_s"`
 	Seed       uint64   `json:"seed"`
@@ -205,6 +207,51 @@ func freeSliceC19(seed uint64, d time.Duration, fs *c19FreeStats, mu *sync.Mutex
 	fs.Slices++
 }
 
+// firstSamplesC19: several goroutines add the very first samples of a key at the same moment (in
+// the server: the first queries finishing together). Whatever the interleaving, once all
+// AddSample calls have returned every one of the values is reported (the window lives 60 s).
+func firstSamplesC19(seed uint64, trials int, fs *c19FreeStats) {
+	r := rand.New(rand.NewSource(int64(seed)))
+	for tr := 0; tr < trials && len(fs.Violations) < 4; tr++ {
+		st := metrics.NewStats()
+		g := 2 + r.Intn(4)
+		key := fmt.Sprintf("fresh%d", tr%3)
+		start := make(chan struct{})
+		var wg sync.WaitGroup
+		vals := make([]int64, g)
+		for i := 0; i < g; i++ {
+			vals[i] = int64(1000*(tr+1) + 7*i + 1)
+			wg.Add(1)
+			go func(v int64) {
+				defer wg.Done()
+				<-start
+				st.AddSample(key, v)
+			}(vals[i])
+		}
+		close(start)
+		wg.Wait()
+		got := st.VerifSamples(key)
+		in := map[int64]bool{}
+		for _, v := range got {
+			in[v] = true
+		}
+		var sum int64
+		for _, v := range vals {
+			sum += v
+			if !in[v] {
+				fs.Violations = append(fs.Violations, fmt.Sprintf("lost-sample: %d goroutines added the first samples %v of a key concurrently; once all had returned the window reports %v", g, vals, got))
+				break
+			}
+		}
+		ex := st.Get()
+		if len(fs.Violations) == 0 && (ex[key+".min"] != vals[0] || ex[key+".max"] != vals[g-1] || ex[key+".avg"] != sum/int64(g)) {
+			fs.Violations = append(fs.Violations, fmt.Sprintf("export-wrong: first samples %v of a key added concurrently; Get exports min %d max %d avg %d", vals, ex[key+".min"], ex[key+".max"], ex[key+".avg"]))
+		}
+		st.VerifStop()
+		fs.FirstSampleTrials++
+	}
+}
+
 func TestC19Free(t *testing.T) {
 	env := core.GetEnv("C19")
 	if os.Getenv("VERIF_RACE_TIER") == "" {
@@ -226,6 +273,7 @@ func TestC19Free(t *testing.T) {
 			}(k)
 		}
 		wg.Wait()
+		firstSamplesC19(env.Seed*77+uint64(round), 3000, fs)
 	}
 	fs.WallS = time.Since(start).Seconds()
 	data, _ := json.MarshalIndent(fs, "", " ")
